@@ -406,7 +406,7 @@ fn judge_input(insts: &[Inst], inp: &Input, c: &mut Collector) {
                     }
                     for h in unattributed_heads {
                         c.count(&format!("unattributed.{h}"));
-                        if spans_only && h != "Unexpected_meta-item_format" {
+                        if spans_only {
                             c.violation(
                                 format!("C03:map:span-missing:{h}"),
                                 format!("{} on `{}`: a leaf `{h}..` about an item of the list has no span inside any item; leaves {:?}", inst.name, inp.src, obs.leaves),
@@ -524,7 +524,7 @@ pub fn run(args: &Args) -> i32 {
 fn outcome(min: u64) -> Outcome {
     Outcome {
         level: "exploration",
-        rule: if SPANS_ONLY.load(std::sync::atomic::Ordering::Relaxed) { "C03 part: the same item lists and 25 map instantiations as C14; judged here: every error leaf about an item of the list (repeated key, unconvertible key, unconvertible value) carries an explicit span inside that very item; only the leaf for a bare literal item may carry none of its own (it gets the list item's). Distinct = as in C14.".to_string() } else { "random item lists (0..12 items, key alphabets of 1..4 names with ::-leading / multi-segment / raw spellings, literal items, 14 value forms) parsed from source text and converted by all 25 map instantiations (HashMap x {String, Ident, Path} keys, BTreeMap x {String, Ident} keys, values bool / u8 / String / Expr / nested map); success, entries, leaf count and per-item leaf attribution (by span) are compared with a model whose key conversion is re-implemented and whose value acceptance is V::from_meta on the same item; Hash/BTree agreement checked per input. Distinct = (instantiation, length bucket, #literals, #repeats, #bad keys, #bad values, outcome).".to_string() },
+        rule: if SPANS_ONLY.load(std::sync::atomic::Ordering::Relaxed) { "C03 part: the same item lists and 25 map instantiations as C14; judged here: every error leaf about an item of the list (repeated key, unconvertible key, unconvertible value) carries an explicit span inside that very item; so does the leaf for a bare literal item. Distinct = as in C14.".to_string() } else { "random item lists (0..12 items, key alphabets of 1..4 names with ::-leading / multi-segment / raw spellings, literal items, 14 value forms) parsed from source text and converted by all 25 map instantiations (HashMap x {String, Ident, Path} keys, BTreeMap x {String, Ident} keys, values bool / u8 / String / Expr / nested map); success, entries, leaf count and per-item leaf attribution (by span) are compared with a model whose key conversion is re-implemented and whose value acceptance is V::from_meta on the same item; Hash/BTree agreement checked per input. Distinct = (instantiation, length bucket, #literals, #repeats, #bad keys, #bad values, outcome).".to_string() },
         assumptions: vec!["V::from_meta on the same item is the reference for value acceptance (the scalar conversions themselves are C11/C13's subject)".into()],
         min_nontrivial: min,
         exhaustive: None,
